@@ -95,6 +95,17 @@ def impl(case):
            'cut': battery(A(_cutset(case), _cutidx(case)), case['lag'], case['S'], case['F'], which=['emm']),
            'single': [battery(A([t], [i]), case['lag'], case['S'], case['F'], which=['coring', 'wt', 'paths'])
                       for i, t in enumerate(trajs)]}
+    present = sorted({v for t in trajs for v in t})
+    if len(trajs) >= 2 and len(present) >= 3 and not case.get('light'):
+        # lumped objects: the same set in both orders, and the macrostate trajectories passed plainly
+        import msmhelper as mh
+        f = {v: 500 + (i * 2) // len(present) for i, v in enumerate(present)}
+        M = lambda ts: [np.array([f[v] for v in t]) for t in ts]  # noqa
+        pt = [trajs[i] for i in case['perm']]
+        out['lumped'] = {
+            'base': battery(mh.LumpedStateTraj(M(trajs), A(trajs)), case['lag'], case['S'], case['F'], which=['emm', 'its', 'ck']),
+            'perm': battery(mh.LumpedStateTraj(M(pt), A(pt, case['perm'])), case['lag'], case['S'], case['F'], which=['emm', 'its', 'ck']),
+            'macro': battery(M(trajs), case['lag'], case['S'], case['F'], which=['ck'])}
     return out
 
 
@@ -137,6 +148,16 @@ def judge(case, ibc, answers):
             if not _close(b[name], p[name]):
                 P('impl-vs-spec', '%s changes when the trajectories are reordered: %s vs %s' % (
                     name, C.short(b[name], 120), C.short(p[name], 120)))
+        lu = r.get('lumped')
+        if lu:
+            for name in ('emm', 'its', 'ck'):
+                if not _close(lu['base'][name], lu['perm'][name]):
+                    P('impl-vs-spec', 'lumped object: %s changes when the trajectories are reordered: %s vs %s' % (
+                        name, C.short(lu['base'][name], 120), C.short(lu['perm'][name], 120)))
+            lck, mck = lu['base']['ck'], lu['macro']['ck']
+            if 'err' not in lck and 'err' not in mck and not _close(lck.get('md'), mck.get('md')):
+                P('impl-vs-spec', 'lumped object: reference curves %s are not those of the macrostate trajectories '
+                  'taken as independent pieces %s' % (C.short(lck.get('md'), 120), C.short(mck.get('md'), 120)))
         # per-trajectory outputs: concatenation of the single-trajectory results
         singles = r['single']
         if all('err' not in s['coring'] for s in singles):
